@@ -18,7 +18,8 @@ def classify(prop, sig):
         if "StoreObjectForPidAlreadyInProgress" in outs and re.search(r"(^|[|;])d\d", sig.get("scenario", "")) and \
                 sig.get("locked") == [[], []] and not sig.get("residue"):
             return prop + "-R3"
-        if "RefsFileExistsButCidObjMissing" in api and all(o in ("ok", "mismatch", "PidRefsDoesNotExist") for o in outs) \
+        allowed = ("ok", "mismatch", "PidRefsDoesNotExist") + (("FileNotFoundError",) if "xA" in sig.get("scenario", "") else ())
+        if "RefsFileExistsButCidObjMissing" in api and all(o in allowed for o in outs) \
                 and sig.get("locked") == [[], []] and not sig.get("residue") and sig.get("kind") == "state":
             return prop + "-R1"
     if prop == "C13":
